@@ -73,6 +73,7 @@ type Ctx struct {
 	curMk    *markerInfo
 	reads    []readEvent
 	prefer   []*Term
+	splits   []*Term // boolean terms worth a case split (append in place / reallocated)
 	oldBinds map[int]Val
 	sliceTerms map[*Term]bool
 }
@@ -805,7 +806,7 @@ func (fr *Frame) runLoop(li *LoopInfo) {
 		if ls != nil {
 			m1 := fr.evalLoopSpecBack(li, ls, i)
 			if ls.Decr != nil && measure0 != nil && m1 != nil {
-				c.oblige(fr, tag+"-decreases", "", And(BVCmp("bvsle", BVLit(0, 64), measure0), BVCmp("bvslt", m1, measure0)), h.Instrs[0].Pos())
+				c.oblige(fr, tag+"-decreases", ls.Decr.Label, And(BVCmp("bvsle", BVLit(0, 64), measure0), BVCmp("bvslt", m1, measure0)), h.Instrs[0].Pos())
 			}
 		}
 		for phi, v := range saved {
